@@ -131,6 +131,28 @@ theorem nonempty_of_match (T : Tuning S) (db : Db) (q : Bytes) (o : Opts S) (r :
     (hsc : (scoresOf T db q o).isEmpty = false) : r ≠ [] :=
   search_ne_nil_of_scored T db q o r h hterms hsc
 
+/-- The one stage of `applyPostScoringBoosts` that is not in the model — the embedding ("semantic") boost,
+    active only when an embeddings file is loaded (none is shipped; C19) — has the shape "multiply every score
+    by a per-document factor, re-sort stably, before the final truncation", which is the shape of the cascade
+    stage.  Any stage of that shape with non-negative factors (`1 + α·sim`, applied only for `sim ≥ 0.1`)
+    preserves all five clauses: -/
+theorem factor_stage_preserves (n limit : Nat) (f : NlpOut S) (hf : f.FactorsNonneg) (r : List (Nat × S))
+    (hids : (r.map (·.1)).Nodup ∧ ∀ x ∈ r, x.1 < n) (hnn : ∀ x ∈ r, Nonneg x.2) :
+    let r' := (cascadeStage f r).take limit
+    r'.length ≤ limit ∧ (∀ x ∈ r', x.1 < n) ∧ (r'.map (·.1)).Nodup ∧
+    r'.Pairwise (fun a b => lt a.2 b.2 = false) ∧ (∀ x ∈ r', Nonneg x.2) := by
+  have i1 : IdsOK n (cascadeStage f r) := idsOK_cascade f hids
+  have i2 := idsOK_take i1 limit
+  have n1 : AllNonneg (cascadeStage f r) := cascade_nonneg f hf r hnn
+  by_cases he : r = []
+  · subst he; simp [cascadeStage]
+  · have hs : (cascadeStage f r).Pairwise (fun a b => lt a.2 b.2 = false) := by
+      unfold cascadeStage
+      have : r.isEmpty = false := by cases r <;> simp_all
+      simp only [this, Bool.false_eq_true, ↓reduceIte]
+      exact sortDesc_sorted (S := S) (fun x : Nat × S => x.2) _
+    exact ⟨List.length_take_le _ _, i2.2, i2.1, hs.sublist (List.take_sublist _ _), allNonneg_take n1 limit⟩
+
 /-! ### legacy pipeline search (`wtf pipeline` → SearchWithPipelineOptions) -/
 
 /-- **C01, SearchWithPipelineOptions**, for every legacy scorer `score` (uninterpreted), no hypotheses. -/
